@@ -20,6 +20,7 @@ use std::sync::mpsc;
 use std::sync::{Arc, Mutex};
 use std::time::{Duration, Instant};
 
+pub mod cap;
 pub mod known;
 pub mod util;
 
@@ -188,6 +189,7 @@ fn hex(keys: &[u64]) -> String {
 /// Worker main loop: reads `RUN s e careful` lines from stdin.
 pub fn worker_main(mut space: Box<dyn Space + Send>) -> ! {
     install_panic_hook();
+    let proto = Arc::new(Mutex::new(cap::init_worker()));
     let cur = Arc::new(AtomicU64::new(u64::MAX));
     let started = Arc::new(Mutex::new(Instant::now()));
     let limit_ms = Arc::new(AtomicU64::new(5000));
@@ -195,6 +197,7 @@ pub fn worker_main(mut space: Box<dyn Space + Send>) -> ! {
         let cur = cur.clone();
         let started = started.clone();
         let limit_ms = limit_ms.clone();
+        let proto = proto.clone();
         std::thread::spawn(move || loop {
             std::thread::sleep(Duration::from_millis(50));
             let c = cur.load(Ordering::SeqCst);
@@ -203,8 +206,7 @@ pub fn worker_main(mut space: Box<dyn Space + Send>) -> ! {
                 if el.as_millis() as u64 > limit_ms.load(Ordering::SeqCst) {
                     // make sure it is still the same case
                     if cur.load(Ordering::SeqCst) == c {
-                        let out = std::io::stdout();
-                        let mut out = out.lock();
+                        let mut out = proto.lock().unwrap();
                         let _ = writeln!(out, "TIMEOUT {}", c);
                         let _ = out.flush();
                         std::process::exit(3);
@@ -236,8 +238,7 @@ pub fn worker_main(mut space: Box<dyn Space + Send>) -> ! {
                 let mut viols: Vec<Value> = vec![];
                 for idx in s..e {
                     if careful {
-                        let out = std::io::stdout();
-                        let mut out = out.lock();
+                        let mut out = proto.lock().unwrap();
                         let _ = writeln!(out, "AT {}", idx);
                         let _ = out.flush();
                     }
@@ -271,8 +272,7 @@ pub fn worker_main(mut space: Box<dyn Space + Send>) -> ! {
                     }
                 }
                 let msg = json!({"outcomes": outcomes, "counters": counters, "viols": viols});
-                let out = std::io::stdout();
-                let mut out = out.lock();
+                let mut out = proto.lock().unwrap();
                 let _ = writeln!(out, "DONE {} {} {} {}", s, e, hex(&keys), msg);
                 let _ = out.flush();
             }
